@@ -490,6 +490,7 @@ fn main() {
         src.push_str("pub mod wrapped {\n    use serde::{Serialize, Deserialize};\n    #[derive(Serialize, Deserialize)]\n    pub struct Request<T> { pub body: T }\n    #[derive(Serialize, Deserialize)]\n    pub struct NewUser { pub name: String }\n}\n#[tauri::command]\npub fn wrapped_request(request: wrapped::Request<u32>, dry_run: bool) -> u32 { 0 }\n");
         src.push_str("#[derive(Serialize, Deserialize, Clone)]\npub struct Chunk { pub n: u32 }\npub mod bot { #[poise::command(slash_command)]\n    pub fn download() {} }\n#[tauri::command]\npub fn download(url: String, on_chunk: Channel<Chunk>) -> u32 { 0 }\n");
         src.push_str("#[derive(Serialize, Deserialize)]\npub struct UserPoint { pub x: i32 }\n#[tauri::command(rename_all = \"snake_case\")]\npub fn snake_destructured(UserPoint { x }: UserPoint, plain_one: u32) -> u32 { 0 }\n#[tauri::command]\npub fn camel_destructured(UserPoint { x }: UserPoint, plain_one: u32) -> u32 { 0 }\n");
+        src.push_str("#[tauri::command]\npub fn track(Point2 { x, y }: Point2, on_event: Channel<u32>) -> u32 { 0 }\n#[tauri::command]\npub fn watch_all(_: tauri::AppHandle, on_tick: Channel<u32>, limit: u32) -> u32 { 0 }\n");
         src.push_str("#[tauri::command]\npub fn parens(app: (tauri::AppHandle), label: (Option<String>), ch: (Channel<String>), n: (u32)) -> u32 { 0 }\n");
         src.push_str("#[tauri::command]\npub fn ipc_bare(id: u32, ch: ipc::Channel, win: tauri::window::Window, view: tauri::webview::WebviewWindow) -> u32 { 0 }\n#[tauri::command(rename_all = r\"snake_case\")]\npub fn raw_rule_cmd(user_id: u32, on_event: Channel<u32>) -> u32 { 0 }\n");
         src.push_str("#[tauri::command]\npub fn channel_spellings(id: u32, on_a: tauri::ipc::Channel<u32>, on_b: tauri::ipc::Channel, on_c: ipc::Channel<String>) -> u32 { 0 }\n");
@@ -554,6 +555,8 @@ fn main() {
                 ("DownloadParams", "fn download(url: String, on_chunk: Channel<Chunk>) next to mod bot { #[poise::command] fn download() }", vec!["onChunk", "url"]),
                 ("SnakeDestructuredParams", "#[tauri::command(rename_all = \"snake_case\")] fn snake_destructured(UserPoint { x }: UserPoint, plain_one: u32)", vec!["plain_one", "user_point"]),
                 ("CamelDestructuredParams", "fn camel_destructured(UserPoint { x }: UserPoint, plain_one: u32)", vec!["plainOne", "userPoint"]),
+                ("TrackParams", "fn track(Point2 { x, y }: Point2, on_event: Channel<u32>)", vec!["onEvent", "point2"]),
+                ("WatchAllParams", "fn watch_all(_: tauri::AppHandle, on_tick: Channel<u32>, limit: u32)", vec!["limit", "onTick"]),
                 ("ParensParams", "fn parens(app: (tauri::AppHandle), label: (Option<String>), ch: (Channel<String>), n: (u32))", vec!["ch", "label", "n"]),
                 ("IpcBareParams", "fn ipc_bare(id: u32, ch: ipc::Channel, win: tauri::window::Window, view: tauri::webview::WebviewWindow)", vec!["ch", "id"]),
                 ("RawRuleCmdParams", "#[tauri::command(rename_all = r\"snake_case\")] fn raw_rule_cmd(user_id: u32, on_event: Channel<u32>)", vec!["on_event", "user_id"]),
@@ -817,6 +820,12 @@ fn main() {
         enums.push(("RawRuleKind".to_string(), vec!["fast-mode".to_string(), "slow-mode".to_string()]));
         src.push_str("#[derive(Serialize, Deserialize)]\npub struct SelfRef { pub children: Vec<Self>, pub by_name: HashMap<String, Self>, pub self_name: String }\n");
         structs.push(("SelfRef".to_string(), vec![("children".to_string(), false), ("by_name".to_string(), false), ("self_name".to_string(), false)]));
+        src.push_str("#[derive(Serialize, Deserialize)]\n#[serde(rename_all = \"camelCase\")]\npub struct Account2 { #[serde(rename = \"user_id\")] pub legacy_id: u32, pub user_id: String, pub display_name: String }\n");
+        structs.push(("Account2".to_string(), vec![("user_id".to_string(), false), ("userId".to_string(), false), ("displayName".to_string(), false)]));
+        let long_name = "a-sentence-long-wire-name-".repeat(5);
+        src.push_str(&format!("#[derive(Serialize, Deserialize)]\npub enum WideNames {{ #[serde(rename = \"{}\")] Wide, Narrow, \u{9577}\u{3044}\u{8b58}\u{5225}\u{5b50}\u{306e}\u{5217}\u{6319}\u{5024}\u{3068}\u{3057}\u{3066}\u{306e}\u{540d}\u{524d}\u{304c}\u{3068}\u{3066}\u{3082}\u{9577}\u{3044}\u{5834}\u{5408}\u{306e}\u{4f8b}\u{3068}\u{3057}\u{3066}\u{4f7f}\u{3046}\u{540d}\u{524d}\u{3067}\u{3059} }}\n", long_name));
+        enums.push(("WideNames".to_string(), vec![long_name.clone(), "Narrow".to_string(), "\u{9577}\u{3044}\u{8b58}\u{5225}\u{5b50}\u{306e}\u{5217}\u{6319}\u{5024}\u{3068}\u{3057}\u{3066}\u{306e}\u{540d}\u{524d}\u{304c}\u{3068}\u{3066}\u{3082}\u{9577}\u{3044}\u{5834}\u{5408}\u{306e}\u{4f8b}\u{3068}\u{3057}\u{3066}\u{4f7f}\u{3046}\u{540d}\u{524d}\u{3067}\u{3059}".to_string()]));
+        cmd_params.push("acc2: Account2, wide: WideNames".to_string());
         src.push_str("#[derive(Serialize)]\npub struct BorrowedOpt<'a> { pub note: &'a Option<String>, pub plain: Option<u32>, pub wrapped: (Option<bool>) }\n");
         structs.push(("BorrowedOpt".to_string(), vec![("note".to_string(), false), ("plain".to_string(), false), ("wrapped".to_string(), false)]));
         src.push_str("#[derive(Serialize, Deserialize)]\npub struct CfgAlt {\n    #[cfg(unix)]\n    pub mode: u32,\n    #[cfg(not(unix))]\n    pub mode: String,\n    pub other: u32,\n}\n");
@@ -960,7 +969,7 @@ fn main() {
             ("e-if-let-err", ""), ("e-cond", ""), ("e-scrutinee", ""), ("e-and", ""), ("e-assign", ""), ("e-while-cond", ""), ("e-let-else", ""), ("e-tuple", ""), ("e-not", ""), ("e-return", ""), ("e-in-method", ""), ("e-in-inline-module", ""),
             ("s-before", ""), ("s-inner-typed", ""), ("s-after-block", ""), ("s-if-let-bound", ""), ("s-after-if-let", ""), ("s-for-bound", ""), ("s-closure-bound", ""), ("s-rebound-untyped", ""), ("s-match-bound", ""),
             ("d-rest-first", ""), ("d-rest-last", ""), ("d-rest-tail", ""), ("w-shadowed", ""), ("w-shadowed-param", ""), ("w-rebound-in-block", ""),
-            ("g-impl-param", ""), ("g-impl-vec", ""),
+            ("g-impl-param", ""), ("g-impl-vec", ""), ("w-raw-param", ""), ("w-raw-let", ""),
             ("y-nested-closure", ""), ("y-nested-if", ""), ("y-nested-async", ""), ("y-none-turbofish", ""), ("y-option-some", ""), ("y-result-ok", ""), ("y-default-default", ""), ("y-closure-typed", ""),
             ("y-slice-param", ""), ("y-array-param", ""), ("y-bytes-param", ""), ("y-vec-of-arrays", ""), ("y-neg-int", ""), ("y-neg-float", ""), ("y-suffixed", ""), ("y-raw-struct", ""), ("y-self-struct", ""),
             ("y-local-struct", ""), ("y-local-in-method", ""), ("y-fn-call-result", ""), ("y-fn-call-vec", ""), ("y-ctor-new", ""),
@@ -1021,6 +1030,7 @@ fn main() {
             pub fn values(app: &tauri::AppHandle) { app.emit(\"v-unit-variant\", JobState::Running).ok(); app.emit(\"v-struct-variant\", JobState::Failed { code: 1 }).ok(); app.emit(\"v-tuple-variant\", JobState::Done(3)).ok(); app.emit(\"v-qualified-variant\", crate::JobState::Running).ok(); app.emit(\"v-assoc-const\", JobState::IDLE).ok(); app.emit(\"v-ctor-call\", JobState::fresh()).ok(); app.emit(\"v-const\", MAX_RETRIES).ok(); app.emit(\"v-tuple-literal\", (1u32, \"x\")).ok(); app.emit(\"v-unit-struct-path\", crate::Beat).ok();\n\
                 let f = JobState::Failed { code: 2 }; app.emit(\"v-let-struct-variant\", f).ok(); let d = JobState::Done(1); app.emit(\"v-let-tuple-variant\", d).ok(); let v = Vec::new(); app.emit(\"v-let-vec-new\", v).ok(); let m = std::collections::HashMap::new(); app.emit(\"v-let-map-new\", m).ok(); let s = String::new(); app.emit(\"v-let-string-new\", s).ok(); let q = crate::inner::load(); app.emit(\"v-let-fn-call\", q).ok(); }\n\
             #[derive(Serialize, Deserialize, Clone)]\npub struct RawSample { pub raw: u32 }\n#[derive(Serialize, Deserialize, Clone)]\npub struct SampleView { pub shown: String, pub unit: SampleUnit }\n#[derive(Serialize, Deserialize, Clone)]\npub enum SampleUnit { Metric }\nimpl SampleView { pub fn from(_r: RawSample) -> Self { todo!() } }\n\
+            pub fn raw_variables(app: &tauri::AppHandle, r#type: Player) { app.emit(\"w-raw-param\", r#type.clone()).ok(); let r#move: ScanReport = todo!(); app.emit(\"w-raw-let\", &r#move).ok(); }\n\
             pub fn nested_decls(app: &tauri::AppHandle, deep: bool, players: Vec<Player>) { let window = app.clone(); let run = move || { #[derive(Serialize, Clone)] struct InClosure { n: u32 } window.emit(\"y-nested-closure\", InClosure { n: 1 }).ok(); }; run(); if deep { #[derive(Serialize, Clone)] struct InIf { n: u32 } app.emit(\"y-nested-if\", InIf { n: 2 }).ok(); } let webview = app.clone(); let _task = async move { #[derive(Serialize, Clone)] struct InAsync { n: u32 } webview.emit(\"y-nested-async\", InAsync { n: 3 }).ok(); }; app.emit(\"y-none-turbofish\", None::<Player>).ok(); app.emit(\"y-option-some\", Option::Some(1u32)).ok(); app.emit(\"y-result-ok\", Result::<u32, String>::Ok(3)).ok(); let fresh = Default::default(); app.emit(\"y-default-default\", fresh).ok(); players.into_iter().for_each(|p: Player| { app.emit(\"y-closure-typed\", p).ok(); }); }\n\
             pub struct Bus<T> { pub last: Option<T> }\nimpl<T: Serialize + Clone> Bus<T> { pub fn publish(&self, app: &tauri::AppHandle, item: T, many: Vec<T>) { app.emit(\"g-impl-param\", item).ok(); app.emit(\"g-impl-vec\", many).ok(); } }\n\
             pub fn array_payloads(app: &tauri::AppHandle, players: &[Player], pair: [Player; 2], bytes: &[u8]) { app.emit(\"y-slice-param\", players).ok(); app.emit(\"y-array-param\", pair).ok(); app.emit(\"y-bytes-param\", bytes).ok(); let grid: Vec<[u8; 3]> = vec![]; app.emit(\"y-vec-of-arrays\", grid).ok(); app.emit(\"y-neg-int\", -1).ok(); app.emit(\"y-neg-float\", -0.5).ok(); app.emit(\"y-suffixed\", 5u64).ok(); }\n\
@@ -1087,7 +1097,7 @@ fn main() {
                     ("e-if-let-err", "number"), ("e-cond", "number"), ("e-scrutinee", "number"), ("e-and", "number"), ("e-assign", "number"), ("e-while-cond", "number"), ("e-let-else", "number"), ("e-tuple", "number"), ("e-not", "number"), ("e-return", "number"), ("e-in-method", "number"), ("e-in-inline-module", "number"),
                     ("s-before", "types.Player"), ("s-inner-typed", "types.ScanReport"), ("s-after-block", "types.Player"), ("s-if-let-bound", "unknown || number"), ("s-after-if-let", "types.Player"), ("s-for-bound", "unknown || number"), ("s-closure-bound", "unknown || number"), ("s-rebound-untyped", "unknown || number"), ("s-match-bound", "unknown || number"),
                     ("w-shadowed", "types.SampleView"), ("w-shadowed-param", "types.SampleView"), ("w-rebound-in-block", "string"),
-                    ("g-impl-param", "unknown"), ("g-impl-vec", "unknown"),
+                    ("g-impl-param", "unknown"), ("g-impl-vec", "unknown"), ("w-raw-param", "types.Player"), ("w-raw-let", "types.ScanReport"),
                     ("y-nested-closure", "types.InClosure"), ("y-nested-if", "types.InIf"), ("y-nested-async", "types.InAsync"), ("y-none-turbofish", "unknown || types.Player | null"), ("y-option-some", "unknown || number | null"), ("y-result-ok", "unknown || number"), ("y-default-default", "unknown"), ("y-closure-typed", "types.Player"),
                     ("y-slice-param", "types.Player[]"), ("y-array-param", "types.Player[]"), ("y-bytes-param", "number[]"), ("y-vec-of-arrays", "number[][]"), ("y-neg-int", "number"), ("y-neg-float", "number"), ("y-suffixed", "number"),
                     ("y-raw-struct", "types.Move"), ("y-self-struct", "unknown || types.Move"), ("y-local-struct", "types.LocalProgress"), ("y-local-in-method", "types.MethodLocal"),
@@ -1483,7 +1493,8 @@ fn main() {
             pub fn mark_a(app: &tauri::AppHandle, at: Timestamp) {{ app.emit(\"account:marked\", at).ok(); }}\n\
             pub fn mark_b(app: &tauri::AppHandle, at: u64) {{ app.emit(\"account:marked\", at).ok(); }}\n\
             pub fn mark_c(app: &tauri::AppHandle, id: Uuid, name: String) {{ app.emit(\"account:named\", id).ok(); app.emit(\"account:named\", name).ok(); }}\n\
-            #[derive(Serialize, Deserialize, Clone)]\npub struct Stamped {{ pub at: ext::Stamp, pub all: Vec<ext::Stamp>, pub by: HashMap<String, Option<ext::Stamp>>, pub span: Span, pub spans: Vec<Span> }}\n\
+            #[derive(Serialize, Deserialize, Clone)]\npub struct Stamped {{ pub at: ext::Stamp, pub all: Vec<ext::Stamp>, pub by: HashMap<String, Option<ext::Stamp>>, pub plain_by: HashMap<String, ext::Stamp>, pub pos: (f64, f64), pub span: Span, pub spans: Vec<Span> }}\n\
+            #[tauri::command]\npub fn spans(a: ext::Span, b: Span) -> Span {{ todo!() }}\n#[tauri::command]\npub fn spans_rev(b: Span, a: ext::Span) -> ext::Span {{ todo!() }}\n\
             #[derive(Serialize, Deserialize, Clone)]\npub struct Span {{ pub secs: u32 }}\n\
             #[derive(Serialize, Deserialize, Clone)]\n#[serde(into = \"u64\", try_from = \"u64\")]\npub struct LocalStamp {{ pub secs: u64, pub zone: LocalZone, pub parts: Vec<LocalParts> }}\n#[derive(Serialize, Deserialize, Clone)]\npub struct LocalZone {{ pub offset: i32 }}\n#[derive(Serialize, Deserialize, Clone)]\npub struct LocalParts {{ pub hi: u32, pub lo: LocalPartsLow }}\n#[derive(Serialize, Deserialize, Clone)]\npub struct LocalPartsLow {{ pub lo: u32 }}\n\
             #[derive(Serialize, Deserialize, Clone)]\npub struct Visit {{ pub big: i128, pub bigs: Vec<Option<i128>>, pub blob: Vec<u8>, pub at: LocalStamp, pub earlier: Vec<Option<LocalStamp>>, #[serde(with = \"stamp_fmt\")] pub due: Timestamp, #[serde(serialize_with = \"ser_ids\", deserialize_with = \"de_ids\")] pub ids: Vec<Uuid>, #[serde(default, with = \"opt_fmt\")] pub paid: Option<Timestamp> }}\n\
@@ -1501,7 +1512,7 @@ fn main() {
             cfg.project_path = dir.to_string_lossy().to_string();
             cfg.output_path = out.to_string_lossy().to_string();
             cfg.validation_library = mode.to_string();
-            cfg.type_mappings = Some([("Uuid".to_string(), "string".to_string()), ("Timestamp".to_string(), "number".to_string()), ("ext::Stamp".to_string(), "number".to_string()), ("ext::Span".to_string(), "number".to_string()), ("LocalStamp".to_string(), "number".to_string()), ("Option<Cursor>".to_string(), "string".to_string()), ("Stamp3".to_string(), "string".to_string()), ("i128".to_string(), "string".to_string()), ("Vec<u8>".to_string(), "string".to_string())].into_iter().collect());
+            cfg.type_mappings = Some([("Uuid".to_string(), "string".to_string()), ("Timestamp".to_string(), "number".to_string()), ("ext::Stamp".to_string(), "number".to_string()), ("ext::Span".to_string(), "number".to_string()), ("LocalStamp".to_string(), "number".to_string()), ("Option<Cursor>".to_string(), "string".to_string()), ("Stamp3".to_string(), "string".to_string()), ("HashMap<String,ext::Stamp>".to_string(), "string".to_string()), ("(f64,f64)".to_string(), "string".to_string()), ("i128".to_string(), "string".to_string()), ("Vec<u8>".to_string(), "string".to_string())].into_iter().collect());
             let res: Result<BTreeMap<String, String>, String> = generate_from_config(&cfg).map_err(|e| format!("generate_from_config returned Err: {}", e)).and_then(|_| {
                 let mut m = BTreeMap::new();
                 for e in fs::read_dir(&out).map_err(|e| e.to_string())?.flatten() { if e.path().is_file() { m.insert(e.file_name().to_string_lossy().to_string(), fs::read_to_string(e.path()).unwrap_or_default()); } }
@@ -1545,6 +1556,23 @@ fn main() {
                     if !with.contains(n) { return Err(format!("`{}` is declared without a mapping table but not with one, although the table does not name it", n)); }
                 }
                 Ok(format!("{} names", plain.len()))
+            });
+            // C18 / C13: a mapping keyed by a path (ext::Span) and the project's own type of that last name (Span) stay apart, in whichever order they are met
+            rep.case("path_keyed_mapping_and_project_type_stay_apart", &format!("project=mapped mode={} fn spans(a: ext::Span, b: Span) -> Span; fn spans_rev(b: Span, a: ext::Span) -> ext::Span", mode), &|| {
+                let files = res.as_ref().map_err(|e| e.clone())?;
+                let t = files.get("types.ts").ok_or("no types.ts")?;
+                for obj in ["SpansParams", "SpansRevParams"] {
+                    let entries = object_entries(t, obj, mode == "zod").ok_or(format!("UNPARSED: {} not found", obj))?;
+                    let get = |k: &str| entries.iter().find(|(key, _)| key.trim_end_matches('?') == k).map(|(_, v)| v.trim_end_matches(',').trim_end_matches(';').to_string()).ok_or(format!("UNPARSED: {} has no key {}", obj, k));
+                    let (a, b) = (get("a")?, get("b")?);
+                    if !(a.contains("number") && !a.contains("Span")) { return Err(format!("{}.a (ext::Span, mapped to number) is rendered `{}`", obj, a)); }
+                    if !b.contains("Span") { return Err(format!("{}.b (the project's own Span) is rendered `{}`", obj, b)); }
+                }
+                let c = files.get("commands.ts").ok_or("no commands.ts")?;
+                let line = |f: &str| c.lines().find(|l| l.contains(&format!("function {}(", f))).map(|l| l.to_string()).ok_or(format!("UNPARSED: no function {}", f));
+                if !line("spans")?.contains("types.Span") { return Err(format!("spans returns the project's Span: `{}`", line("spans")?.trim())); }
+                if line("spansRev")?.split("Promise<").nth(1).map_or(true, |r| r.contains("Span")) { return Err(format!("spans_rev returns ext::Span, mapped to number: `{}`", line("spansRev")?.trim())); }
+                Ok("ok".into())
             });
             // C04: a key may be left out iff the Rust parameter is an Option, also when the whole Option type is a mapping key
             rep.case("omittable_keys_are_the_option_parameters", &format!("project=mapped mode={} fn page(after: Option<Cursor>, before: Option<Vec<Cursor>>, limit: u32, from: Cursor) with the mapping key Option<Cursor>", mode), &|| {
@@ -2072,11 +2100,12 @@ fn main() {
     }
     // ---- C11: email / url only where they are declared as validators; validate through cfg_attr counts
     {
-        let src = format!("{}#[derive(Serialize, Deserialize, validator::Validate)]\npub struct Signup {{\n    #[validate(must_match(other = email))]\n    pub confirm: String,\n    #[validate(custom(function = crate::rules::url), length(min = 1))]\n    pub site: String,\n    #[validate(email(message = \"bad\"), url)]\n    pub both: String,\n    #[validate(length(min = 2), email)]\n    pub mail: String,\n    #[cfg_attr(feature = \"validation\", validate(length(min = 3, max = 20), email))]\n    pub gated: String,\n    #[cfg_attr(all(feature = \"validation\", not(test)), validate(range(min = 18, max = 120)))]\n    pub age: u32,\n    #[validate(length(min = 1, max = 5))]\n    #[validate(custom(function = checks::length::not_blank))]\n    pub name: String,\n    #[validate(custom(function = crate::checks::range::even), range(min = 2, max = 8))]\n    pub even: u32,\n    pub email: String,\n    pub url: String,\n}}\n#[tauri::command]\npub fn signup(s: Signup) -> u32 {{ 0 }}\n", HDR);
+        let src = format!("{}#[derive(Serialize, Deserialize, validator::Validate)]\npub struct Signup {{\n    #[validate(must_match(other = email))]\n    pub confirm: String,\n    #[validate(custom(function = crate::rules::url), length(min = 1))]\n    pub site: String,\n    #[validate(email(message = \"bad\"), url)]\n    pub both: String,\n    #[validate(length(min = 2), email)]\n    pub mail: String,\n    #[cfg_attr(feature = \"validation\", validate(length(min = 3, max = 20), email))]\n    pub gated: String,\n    #[cfg_attr(all(feature = \"validation\", not(test)), validate(range(min = 18, max = 120)))]\n    pub age: u32,\n    #[cfg_attr(feature = \"validation\", validate(email), validate(length(max = 64, message = \"address too long\")))]\n    pub contact: String,\n    #[validate(length(min = 1, max = 5))]\n    #[validate(custom(function = checks::length::not_blank))]\n    pub name: String,\n    #[validate(custom(function = crate::checks::range::even), range(min = 2, max = 8))]\n    pub even: u32,\n    pub email: String,\n    pub url: String,\n}}\n#[tauri::command]\npub fn signup(s: Signup) -> u32 {{ 0 }}\n", HDR);
         let dir = root.join("validators_items/src");
         write_files(&dir, &[("lib.rs".to_string(), src)]);
         let files = generate(&dir, &root.join("validators_items/out_zod"), "zod");
-        let wants: [(&str, &str, &[&str], &[&str]); 10] = [
+        let wants: [(&str, &str, &[&str], &[&str]); 11] = [
+            ("contact", "#[cfg_attr(feature = \"validation\", validate(email), validate(length(max = 64, message = \"address too long\")))] pub contact: String", &[".email(", ".max(64", "address too long"], &[".url("]),
             ("name", "#[validate(length(min = 1, max = 5))] #[validate(custom(function = checks::length::not_blank))] pub name: String", &[".min(1", ".max(5"], &[]),
             ("even", "#[validate(custom(function = crate::checks::range::even), range(min = 2, max = 8))] pub even: u32", &[".min(2", ".max(8"], &[]),
             ("confirm", "#[validate(must_match(other = email))] pub confirm: String", &[], &[".email(", ".url("]),
@@ -2113,6 +2142,73 @@ fn main() {
                 Ok("ok".into())
             });
         }
+    }
+    // ---- C02: one command name, one declaration - also when its two definitions stand in two files (a module per platform)
+    {
+        let files_src = vec![
+            ("lib.rs".to_string(), "#[cfg(desktop)]\nmod desktop;\n#[cfg(mobile)]\nmod mobile;\n".to_string()),
+            ("desktop.rs".to_string(), format!("{}#[tauri::command]\npub fn open_settings(tab: String) -> u32 {{ 0 }}\n", HDR)),
+            ("mobile.rs".to_string(), format!("{}#[tauri::command]\npub fn open_settings(tab: String) -> u32 {{ 1 }}\n", HDR)),
+        ];
+        let dir = root.join("platform_files/src");
+        write_files(&dir, &files_src);
+        for mode in ["none", "zod"] {
+            let files = generate(&dir, &root.join(format!("platform_files/out_{}", mode)), mode);
+            rep.case("type_references_resolve", &format!("project=platform_files mode={}", mode), &|| references_resolve(files.as_ref().map_err(|e| e.clone())?, &[]));
+        }
+    }
+    // ---- C07: every type a field names is declared, whichever of them the collector meets first (12 runs: hash order)
+    {
+        let src = format!("{}#[derive(Serialize, Deserialize, Clone)]\npub struct Square {{ pub file: u8, pub rank: u8 }}\n#[derive(Serialize, Deserialize, Clone)]\npub struct Piece {{ pub kind: String }}\n#[derive(Serialize, Deserialize, Clone)]\npub struct Move3 {{ pub to: Square }}\n#[derive(Serialize, Deserialize, Clone)]\npub struct Capture {{ pub taken: Piece }}\n\
+            #[derive(Serialize, Deserialize, Clone)]\npub struct Board {{ pub cells: Vec<(Square, Piece)>, pub last: Option<(Square, Move3)>, pub taken: HashMap<String, (Square, Capture)> }}\n#[derive(Serialize, Deserialize)]\npub struct Unrelated3 {{ pub n: u32 }}\n#[tauri::command]\npub fn board(b: Board, s: Square) -> u32 {{ 0 }}\n", HDR);
+        let dir = root.join("multi_ref/src");
+        write_files(&dir, &[("lib.rs".to_string(), src)]);
+        for mode in ["none", "zod"] {
+            rep.case("every_type_a_field_names_is_declared", &format!("Board {{ cells: Vec<(Square, Piece)>, last: Option<(Square, Move3)>, taken: HashMap<String, (Square, Capture)> }} with Square also a parameter, 12 runs mode={}", mode), &|| {
+                for run in 0..12 {
+                    let files = generate(&dir, &root.join(format!("multi_ref/out_{}_{}", mode, run)), mode)?;
+                    let exp = exports_of(files.get("types.ts").ok_or("no types.ts")?);
+                    for n in ["Board", "Square", "Piece", "Move3", "Capture"] { if !exp.contains(n) && !exp.contains(&format!("{}Schema", n)) { return Err(format!("run {}: {} is reachable from command `board` but types.ts does not declare it", run, n)); } }
+                    if exp.contains("Unrelated3") || exp.contains("Unrelated3Schema") { return Err(format!("run {}: Unrelated3 is declared although nothing reaches it", run)); }
+                }
+                Ok("12 runs".into())
+            });
+        }
+    }
+    // ---- C09: forty structs in a chain, every fifth naming an enum: no schema is read before its definition (the order must hold beyond any small-input threshold)
+    {
+        let mut src = String::from(HDR);
+        // (the enums sort after the structs by name, so the depth-first order interleaves them with the chain)
+        for i in 0..8 { src.push_str(&format!("#[derive(Serialize, Deserialize, Clone)]\npub enum Zone{} {{ A, B }}\n", i)); }
+        for i in 0..40 {
+            let next = if i < 39 { format!("pub next: Vec<Node{}>, ", i + 1) } else { String::new() };
+            let kind = if i % 5 == 0 { format!("pub kind: Zone{}, ", i / 5) } else { String::new() };
+            src.push_str(&format!("#[derive(Serialize, Deserialize, Clone)]\npub struct Node{} {{ {}{}pub n: u32 }}\n", i, next, kind));
+        }
+        src.push_str("#[tauri::command]\npub fn chain(head: Node0) -> u32 { 0 }\n");
+        let dir = root.join("long_chain/src");
+        write_files(&dir, &[("lib.rs".to_string(), src)]);
+        let files = generate(&dir, &root.join("long_chain/out_zod"), "zod");
+        rep.case("schemas_defined_before_use", "project=long_chain (Node0 -> .. -> Node39, eight enums)", &|| schemas_defined_before_use(files.as_ref().map_err(|e| e.clone())?.get("types.ts").ok_or("no types.ts")?));
+    }
+    // ---- C10: names that differ only in letter case are different types in both modes
+    {
+        let src = format!("{}#[derive(Serialize, Deserialize, Clone)]\npub struct Url {{ pub raw: String }}\n#[allow(clippy::upper_case_acronyms)]\n#[derive(Serialize, Deserialize, Clone)]\npub struct URL {{ pub parts: Vec<String> }}\n#[derive(Serialize, Deserialize, Clone)]\npub struct Id {{ pub n: u32 }}\n#[derive(Serialize, Deserialize, Clone)]\npub struct ID {{ pub s: String }}\n#[derive(Serialize, Deserialize, Clone)]\npub struct Bookmark {{ pub target: Url }}\n#[tauri::command]\npub fn open(a: Url, b: URL, c: Id, d: ID, e: Bookmark) -> u32 {{ 0 }}\n", HDR);
+        let dir = root.join("case_pairs/src");
+        write_files(&dir, &[("lib.rs".to_string(), src)]);
+        rep.case("both_modes_same_names_and_keys", "project=case_pairs (Url / URL, Id / ID as parameters), 8 runs", &|| {
+            for run in 0..8 {
+                let plain = generate(&dir, &root.join(format!("case_pairs/out_none_{}", run)), "none")?;
+                let zod = generate(&dir, &root.join(format!("case_pairs/out_zod_{}", run)), "zod")?;
+                let pe = exports_of(plain.get("types.ts").ok_or("no types.ts")?);
+                let ze = exports_of(zod.get("types.ts").ok_or("no types.ts")?);
+                for n in ["Url", "URL", "Id", "ID", "Bookmark"] {
+                    if !pe.contains(n) { return Err(format!("run {}: plain mode does not declare {}", run, n)); }
+                    if !ze.contains(&format!("{}Schema", n)) { return Err(format!("run {}: Zod mode declares no {}Schema although plain mode declares {}", run, n, n)); }
+                }
+            }
+            Ok("8 runs".into())
+        });
     }
     // ---- C12: a project that only emits events gets its listeners (no command is needed for that)
     {
